@@ -221,6 +221,18 @@ def directed():
             [{'path': ['c0', 'd0[1]'], 'new': kleaf(9174), 'mode': 'cls'}, {'path': ['c0', 'd0[0]'], 'new': kleaf(9175, kind='ff'), 'mode': 'obj'},
              {'path': ['c0'], 'new': dict(copy.deepcopy(mid), uid=9176), 'mode': 'cls'}],
             {'params': [['top.c0.d0\\[*.construct', 12], ['top.c0.construct', 15]]}))
+  # 18. elements of nested lists at depth 2 and 3 (s.c0.e0[0][0], s.c0.e0[1][0].d0[1]): level / parent / host of the new subtree
+  def lst(uid, a, b, slots):
+    return _c(uid, 1, 1, items=[_k(slots[0], a), _k(slots[1], b)],
+              conns=[[R(slots[0], 'in0'), R('in0')], [R(slots[1], 'in0'), R(slots[0], 'out0')], [R('out0'), R(slots[1], 'out0')]])
+  inner = lst(9181, plain_leaf(9182), plain_leaf(9183), ['d0[0]', 'd0[1]'])
+  mid = lst(9184, plain_leaf(9185), inner, ['e0[0][0]', 'e0[1][0]'])
+  top = _c(9180, 1, 1, items=[_k('c0', mid)], conns=[[R('c0', 'in0'), R('in0')], [R('out0'), R('c0', 'out0')]])
+  D.append(('nested-list-elements-deep', top,
+            [{'path': ['c0', 'e0[1][0]', 'd0[1]'], 'new': plain_leaf(9186, kind='ff'), 'mode': 'cls'},
+             {'path': ['c0', 'e0[0][0]'], 'new': lst(9187, plain_leaf(9188), plain_leaf(9189), ['d0[0]', 'd0[1]']), 'mode': 'obj'},
+             {'path': ['c0', 'e0[0][0]', 'd0[0]'], 'new': plain_leaf(9190), 'mode': 'obj'},
+             {'path': ['c0', 'e0[1][0]'], 'new': plain_leaf(9191), 'mode': 'cls'}], {}))
   return D
 
 # ----------------------------------------------------------------------------------------------- one case
@@ -552,7 +564,9 @@ def random_case(rng, g, idx):
   for _ in range(rng.choice([1, 1, 2, 2, 3, 4])):
     ps = U.paths(cur)
     phs = U.placeholders(cur)
-    if phs and rng.random() < 0.6: path = list(rng.choice(phs))
+    deep = [p for p in ps if len(p) >= 2 and '[' in p[-1]]       # list elements whose parent is not the top
+    if deep and rng.random() < 0.3: path = list(rng.choice(deep))
+    elif phs and rng.random() < 0.6: path = list(rng.choice(phs))
     elif steps and rng.random() < 0.25 and tuple(steps[-1]['path']) in ps: path = steps[-1]['path']
     else: path = list(rng.choice(ps))
     old = U.sub(cur, path)
